@@ -22,6 +22,18 @@ func Unmarshal(b []byte, ty cty.Type) (cty.Value, error) {
 	return unmarshal(dec, ty, path)
 }
 
+// maxPreallocLen is the largest number of elements we reserve room for on
+// the word of a length header alone. A header can claim up to 2^32-1 elements
+// in five bytes, so anything beyond this grows only as elements really arrive.
+const maxPreallocLen = 1024
+
+func preallocLen(length int) int {
+	if length > maxPreallocLen {
+		return maxPreallocLen
+	}
+	return length
+}
+
 func unmarshal(dec *msgpack.Decoder, ty cty.Type, path cty.Path) (cty.Value, error) {
 	peek, err := dec.PeekCode()
 	if err != nil {
@@ -142,7 +154,7 @@ func unmarshalList(dec *msgpack.Decoder, ety cty.Type, path cty.Path) (cty.Value
 		return cty.ListValEmpty(ety), nil
 	}
 
-	vals := make([]cty.Value, 0, length)
+	vals := make([]cty.Value, 0, preallocLen(length))
 	path = append(path, nil)
 	for i := 0; i < length; i++ {
 		path[len(path)-1] = cty.IndexStep{
@@ -179,7 +191,7 @@ func unmarshalSet(dec *msgpack.Decoder, ety cty.Type, path cty.Path) (cty.Value,
 		return cty.SetValEmpty(ety), nil
 	}
 
-	vals := make([]cty.Value, 0, length)
+	vals := make([]cty.Value, 0, preallocLen(length))
 	path = append(path, nil)
 	for i := 0; i < length; i++ {
 		path[len(path)-1] = cty.IndexStep{
@@ -214,7 +226,7 @@ func unmarshalMap(dec *msgpack.Decoder, ety cty.Type, path cty.Path) (cty.Value,
 		return cty.MapValEmpty(ety), nil
 	}
 
-	vals := make(map[string]cty.Value, length)
+	vals := make(map[string]cty.Value, preallocLen(length))
 	path = append(path, nil)
 	for i := 0; i < length; i++ {
 		key, err := dec.DecodeString()
